@@ -7,6 +7,16 @@ if grep -rnE '\b(sorry|admit|native_decide)\b' lean/YashModel --include=*.lean |
   echo "snapshot: forbidden token on disk"; grep -rnE '\b(sorry|admit|native_decide)\b' lean/YashModel --include=*.lean | head -5; exit 1
 fi
 python3 tools/check.py --setup > /tmp/snapshot_setup.log 2>&1 || { echo "snapshot: setup failed"; grep -n "error" /tmp/snapshot_setup.log | head; exit 1; }
-if grep -q "could not build" /tmp/snapshot_setup.log; then echo "snapshot: $(grep -o 'could not build.*' /tmp/snapshot_setup.log)"; exit 1; fi
 python3 tools/gen_manifest.py >/dev/null; python3 tools/gen_status.py >/dev/null 2>&1
-git add -A && git commit -qm "$1" && git log --oneline -1
+git add -A
+if grep -q "could not build" /tmp/snapshot_setup.log; then
+  # leave the areas that do not build at this moment (a builder is mid-edit) as they are in HEAD
+  bad=$(grep -o 'could not build.*' /tmp/snapshot_setup.log | grep -o 'C[0-9][0-9]' | sort -u)
+  echo "snapshot: excluding (mid-edit): $bad"
+  for id in $bad; do
+    n=$(echo $id | tr 'A-Z' 'a-z')
+    area=$(python3 -c "import json;print(json.load(open('props/$id.json'))['area'])")
+    git reset -q HEAD -- lean/YashModel/$area harness/src/bin/$n.rs props/$id.json notes/$id.md corpus/$id evidence/$id.json 2>/dev/null
+  done
+fi
+git commit -qm "$1" && git log --oneline -1
